@@ -1,4 +1,5 @@
 SPECIFICATION Spec
+CONSTANT MaxParked = 99
 CONSTANT NTok = 8
 CONSTANT Window = 6
 CONSTANT ReadyTokens = FALSE
